@@ -20,25 +20,28 @@ Proof. exact write_denied_spec. Qed.
     read over the current link ([secret_ok]).  Two well-formed states that are equal except in the
     values stored at [S] ([view S st1 = view S st2]) answer EVERY session identically, provided the
     session contains no authorised write to a handle of [S] ([session_allowed]; such a write is
-    legitimate and its answer may depend on the old value's length).  This is "a value is disclosed
+    legitimate and its answer may depend on the old value's length) and the hooks of the session,
+    which may update any other characteristic (with the notifications that entails), do not
+    themselves assign a characteristic of [S].  This is "a value is disclosed
     only if readable" for every procedure and every sequence at once: read, read blob (any
     offset), read by type, read by group type, read multiple, find information, find by type
     value, prepare/execute write, whatever the hooks do. *)
 Theorem C08_non_interference :
   forall (S : N -> bool) (s : session) (st1 st2 : state),
-    wf_state st1 = true -> wf_state st2 = true -> tx_locked st1 = false ->
+    wf_state st1 = true -> wf_state st2 = true ->
     view S st1 = view S st2 -> secret_ok st1 S -> queue_clean st1 S ->
     inputs_ok st1 s -> session_allowed st1 S s ->
     responses st1 s = responses st2 s.
 Proof. exact non_interference. Qed.
 
 (** A characteristic value changes across a request only if the client may write it (WRITE /
-    WRITE WITHOUT RESPONSE property and the write security requirements met by the link): for every
+    WRITE WITHOUT RESPONSE property and the write security requirements met by the link) -- or a
+    hook of the application assigns that very characteristic itself ([hook_assigns]): for every
     state, every request (write request, write command, prepared + executed writes, ...) and all
     hook behaviours. *)
 Theorem C08_write_needs_permission :
   forall (st : state) (r : att_request) (hk : hook_oracle) (h : N),
-    is_value_handle st h = true -> value_may_write st h = false ->
+    is_value_handle st h = true -> value_may_write st h = false -> hook_assigns hk h = false ->
     value_at (fst (server_step st r hk)) h = value_at st h.
 Proof. exact write_needs_permission. Qed.
 
@@ -46,12 +49,15 @@ Proof. exact write_needs_permission. Qed.
 Theorem C08_write_needs_permission_session :
   forall (s : session) (st : state) (h : N),
     is_value_handle st h = true -> value_may_write st h = false ->
+    Forall (fun x => hook_assigns (snd x) h = false) s ->
     value_at (fold_left session_step s st) h = value_at st h.
 Proof. exact write_needs_permission_session. Qed.
 
 (** Notifications / indications are only sent for a characteristic whose CCCD the client has set to
     0x0001 / 0x0002 by its last accepted CCCD write of the CURRENT connection: over every history of
-    client PDUs, link-security changes, application writes, disconnections and reconnections.
+    client PDUs, link-security changes, application writes, disconnections and reconnections --
+    including the notifications sent in the middle of a request because one of its hooks updates
+    a characteristic.
     [history_ok st [] evs] threads the reference subscription table ([ref_step]: set by accepted CCCD
     writes, emptied by a disconnection) and checks every emitted PDU against it ([notif_ok]). *)
 Theorem C08_notify_only_subscribed :
